@@ -66,14 +66,51 @@ def load_known_findings(prop):
 
 # --------------------------------------------------------------------- one run
 
+class RunDidNotReturn(BaseException):
+    pass
+
+
+RUN_WALL_S = int(os.environ.get("VERIF_RUN_WALL_S", "60"))
+
+
 def run_guarded(mod, ch, cfg):
-    """mod.run_one with the 'a simulated run is executing' flag up (see sim.boot)."""
+    """mod.run_one with the 'a simulated run is executing' flag up (see sim.boot), under a generous
+    real-time limit: runs take milliseconds of real time whatever their simulated duration; one that is
+    still going after RUN_WALL_S seconds is the code under test (or a model) spinning, which is
+    reported as a violation of its own kind with the run's choices rather than killing the batch."""
+    import signal
+    import threading
     from sim import boot as _boot
+
+    fired = []
+
+    def _alarm(signum, frame):
+        fired.append(1)
+        signal.alarm(2)              # (the code under test may catch BaseException: insist)
+        raise RunDidNotReturn()
+    use_alarm = threading.current_thread() is threading.main_thread()
+    if use_alarm:
+        old = signal.signal(signal.SIGALRM, _alarm)
+        signal.alarm(RUN_WALL_S)
     _boot.IN_RUN[0] += 1
     try:
-        return mod.run_one(ch, cfg)
+        res = mod.run_one(ch, cfg)
+        if fired:
+            res["violations"] = list(res.get("violations") or []) + [(
+                "liveness/run-did-not-return", "the run was still executing after %d s of real time and "
+                "had to be interrupted" % RUN_WALL_S)]
+        return res
+    except RunDidNotReturn:
+        return {"violations": [("liveness/run-did-not-return",
+                                "the run was still executing after %d s of real time (last draws: %s)"
+                                % (RUN_WALL_S, list(zip(ch.labels[-6:], ch.record[-6:]))))],
+                "digest": "-", "state": ("did-not-return",), "nontrivial": True, "faults": {},
+                "probes": {"did_not_return": 1}, "sim_s": 0.0, "sample": {}}
     finally:
         _boot.IN_RUN[0] -= 1
+        if use_alarm:
+            signal.alarm(0)
+            signal.signal(signal.SIGALRM, old)
 
 
 def execute(mod, cfg, seed=None, prescribed=None):
